@@ -378,4 +378,26 @@ def run(tier: str, seed: int, replay=None) -> int:
                            "python": "from harness import c09; print(c09.run_nested_scenario())",
                            "explanation": "per inner kind (the / an with AtMost(1)): the outcome of each successive evaluation of the SAME "
                                           "outer query object; a quantifier must see the true number of solutions at every evaluation"})
+    # ---- known findings: python-snippet witnesses (constructs outside the counting-loop model), replayed on every run
+    if replay is None:
+        from harness import eqlcheck
+        for f in core.load_findings(PROP):
+            try:
+                w = json.loads((core.VERIF / f.witness).read_text())
+            except Exception as e:  # noqa
+                rep.oblige(f"witness:{f.fid}", False, f"cannot read {f.witness}: {e}")
+                continue
+            if "python" not in w:
+                continue          # (fixed C09-a: re-checked by the scenario table above)
+            got = eqlcheck.run_python_witness(w["python"])
+            fails, as_recorded = got != w["spec"], got == w.get("impl_recorded")
+            if f.kind == "open" and fails and as_recorded:
+                rep.known(f)
+            elif fails:
+                rep.violation({"kind": "counterexample", "finding": f.fid, "witness": f.witness, "impl": got, "spec": w["spec"],
+                               "impl_recorded": w.get("impl_recorded"), "python": w["python"],
+                               "explanation": ("regression: defect repaired in %s is back" % f.commit) if f.kind == "fixed" else
+                                              "the witness of a listed finding now fails in a different way than recorded"})
+            elif f.kind == "open":
+                rep.note(f"finding {f.fid} no longer reproduces (witness now meets the Spec)")
     return rep.finish()
